@@ -1,8 +1,8 @@
 package main
 
 import (
-	bpmn "github.com/olive-io/bpmn/v2"
 	"fmt"
+	bpmn "github.com/olive-io/bpmn/v2"
 	"math/rand"
 	"strings"
 	"time"
@@ -352,6 +352,8 @@ func runC11(env *Env) {
 			}
 		}
 	}
+	// boundary events are listeners too: an event delivered the moment one of them announces that it listens
+	boundaryPromptDelivery(env, rep, "C11-exactly-once", 12)
 	env.WriteCases(rep, "", "Corr.C11corr", "list (nat * list nat * nat * nat)", items, "c11_mismatches")
 	env.WriteReport(rep)
 }
